@@ -15,6 +15,7 @@ ops (hex lower case, `-` = empty):
   keylen <n>                                 -> ok | fail | panic       (does a key of n bytes survive encrypt+decrypt)
   w.init <pw> <seedlen> new|legacy           -> ok
   w.add <keylen> new|legacy                  -> ok | rejected
+  w.addbad <keylen>                          -> ok      (a record with an EMPTY Addr written behind the wallet's back)
   w.setpasswd <old> <new> <writeOk01>        -> ok | ErrInvalidPassWord | ErrVerifyOldpasswdFail | ErrSeed | ErrWrite | panic
   w.check                                    -> pw=<hex> seed=<len> keys=<sorted record lengths> dec=<1|0>
 -/
@@ -138,7 +139,16 @@ def stepLine (w : W) (line : String) : W × String :=
         match enc with
         | .panic => (w, "panic")
         | .ok blob =>
-          ({ w with store := { w.store with accts := w.store.accts ++ [⟨w.n, blob⟩] }, keys := w.keys ++ [k], n := w.n + 1 }, "ok")
+          ({ w with store := { w.store with accts := w.store.accts ++ [⟨w.n, blob, true⟩] }, keys := w.keys ++ [k], n := w.n + 1 }, "ok")
+    | none => (w, "bad-op")
+  | ["w.addbad", keylen] =>
+    match keylen.toNat? with
+    | some n =>
+      let k := fill n (20 + w.n)
+      match cbcEncrypt toyCipher w.store.pw (fill 16 (40 + w.n)) k with
+      | .panic => (w, "panic")
+      | .ok blob =>
+        ({ w with store := { w.store with accts := w.store.accts ++ [⟨w.n, blob, false⟩] }, keys := w.keys ++ [k], n := w.n + 1 }, "ok")
     | none => (w, "bad-op")
   | ["w.setpasswd", old, new, wok] =>
     match fromHex old, fromHex new with
